@@ -4,7 +4,7 @@ use std::ops::RangeInclusive;
 use chrono::prelude::Datelike;
 use chrono::{Duration, NaiveDate, Weekday};
 
-use opening_hours_syntax::rules::day::{self as ds, Date, Month};
+use opening_hours_syntax::rules::day::{self as ds, Month};
 
 use crate::localization::Localize;
 use crate::opening_hours::{DATE_END, DATE_START};
@@ -276,6 +276,20 @@ fn date_on_year(
     }
 }
 
+/// Project date on a given year, only if this exact day exists for that year (for example
+/// "Feb 29" only exists on leap years and "Apr 31" never does).
+fn exact_date_on_year(date: ds::Date, for_year: i32) -> Option<NaiveDate> {
+    match date {
+        ds::Date::Fixed { year, month, day }
+            if year.map(|year| i32::from(year) == for_year).unwrap_or(true) =>
+        {
+            NaiveDate::from_ymd_opt(for_year, month.into(), day.into())
+        }
+        ds::Date::Easter { .. } => date_on_year(date, for_year, valid_ymd_after),
+        _ => None,
+    }
+}
+
 impl DateFilter for ds::MonthdayRange {
     fn filter<L>(&self, date: NaiveDate, _ctx: &Context<L>) -> bool
     where
@@ -294,12 +308,12 @@ impl DateFilter for ds::MonthdayRange {
             } => {
                 let year = date.year();
 
-                if *start == Date::md(29, Month::February) && *end == Date::md(29, Month::February)
-                {
+                if start == end {
+                    // A single day only matches on years where it actually exists.
                     return is_open_from_intervals(
                         date,
-                        (year - 1..=DATE_END.year())
-                            .filter_map(|y| NaiveDate::from_ymd_opt(y, 2, 29))
+                        (year - 1..=year + 1)
+                            .filter_map(|y| exact_date_on_year(*start, y))
                             .map(|d| start_offset.apply(d)..=end_offset.apply(d)),
                     );
                 }
@@ -402,12 +416,12 @@ impl DateFilter for ds::MonthdayRange {
             } => {
                 let year = date.year();
 
-                if *start == Date::md(29, Month::February) && *end == Date::md(29, Month::February)
-                {
+                if start == end {
+                    // A single day only matches on years where it actually exists.
                     return Some(next_change_from_intervals(
                         date,
                         (year - 1..=DATE_END.year())
-                            .filter_map(|y| NaiveDate::from_ymd_opt(y, 2, 29))
+                            .filter_map(|y| exact_date_on_year(*start, y))
                             .map(|d| start_offset.apply(d)..=end_offset.apply(d)),
                     ));
                 }
